@@ -109,8 +109,12 @@ fn case_fn(case: &mut Case, base: &Path) -> CaseResult {
                 2 => {
                     // half of the time behind a block-string description whose lines start with multi-byte
                     // white space (U+3000, NBSP): the human renderer quotes and re-indents these lines
-                    let desc = if case.ch.flip() { "\"\"\"\n\u{3000}wide line\n  two\n\u{a0}\u{a0}nbsp\n\"\"\"\n" } else { "" };
-                    gp.schema_files[i].1 = format!("{text}{desc}scalar WithUnknownDirective{i} @noSuchDirective\n");
+                    // (the whole block is indented, so the common indentation of the quoted context is not zero)
+                    gp.schema_files[i].1 = match case.ch.below(3) {
+                        0 => format!("{text}  \"\"\"\n  two\n\u{3000}wide line\n  \"\"\"\n  scalar WithUnknownDirective{i} @noSuchDirective\n"),
+                        1 => format!("{text}    \"\"\"\n\u{a0}\u{a0}nbsp line\n    \"\"\"\n    scalar WithUnknownDirective{i} @noSuchDirective\n"),
+                        _ => format!("{text}scalar WithUnknownDirective{i} @noSuchDirective\n"),
+                    };
                     injected.push(Injected { file: rel, kind: "schema", stage: Stage::Check, what: "unknown directive" });
                 }
                 _ => {
